@@ -372,7 +372,15 @@ func (x *Exec) member(recv Value, name string, args []Value) Value {
 				if sig.Results().Len() == 0 {
 					x.fail("method %s has no result", name)
 				}
-				v = w.seed(r.Path+"."+name, sig.Results().At(0).Type())
+				sp := r.Path + "." + name
+				if len(args) > 0 {
+					var as []string
+					for _, a := range args {
+						as = append(as, x.str(a))
+					}
+					sp += "(" + strings.Join(as, ",") + ")"
+				}
+				v = w.seed(sp, sig.Results().At(0).Type())
 			}
 			v = x.wrapEnum(v, m.Type().(*types.Signature).Results())
 			if name == "GetOption" { // lines of a var ( ... ) block
